@@ -339,6 +339,12 @@ int main (int argc, char *argv[]) {
             write_data(zck, data + start, in_size - (start + matched));
     }
 
+    if(in_size < 0) {
+        LOG_ERROR("Unable to read %s: ", arguments.args[0]);
+        perror("");
+        exit(1);
+    }
+
     /* Write out a partial match of the split string at the end of the input */
     if(matched > 0)
         write_data(zck, arguments.split_string, matched);
